@@ -1,13 +1,18 @@
 """C14 - TAPS methylation calls reflect reference context and observed conversion.
 
-Seam: TAPSNlaIIIMolecule / TAPSCHICMolecule .__finalise__() on in-memory fragments with a real pysam.FastaFile.
+Seam: <TAPS molecule class>.__finalise__() on in-memory fragments with a real pysam.FastaFile, for all six TAPS
+molecule classes (TAPSMolecule, TAPSNlaIIIMolecule, TAPSCHICMolecule, AnnotatedTAPSNlaIIIMolecule,
+AnnotatedTAPSCHICMolecule, TAPSPTaggedMolecule).
 Reference: a de-Bruijn word of order 3 over ACGTN (every 3-base context incl. non-ACGT bases), short contigs which
 put a G at positions 0/1 and a C at the last two positions next to every letter (contexts truncated at both contig
-ends) and a soft-masked contig.
+ends), contigs shorter than a context (C, G, CG, GC), a soft-masked contig, the same word in both mixed-case phases and
+a contig with the IUPAC letters R / Y next to C and G.
 Space: EVERY window (start, length <= Lmax) of every contig x EVERY subset of the window's C/G positions converted
 (C>T, G>A - so conversions on the wrong strand occur as well) [+ for the fully overlapping pair every single C/G
 position read as a non-conversion substitution or as N] x strand +/- x taps_strand F/R x fragment shape x molecule
-class.  Oracle: oracles/c14_caller.py (independent caller from the Bismark definition and the property text).
+class; plus the vote family (one C/G position shown differently by the mate / by further fragments of the molecule /
+filtered by min_phred_score) and the retag family (set_methylation_call_tags with custom tag names and a subset of the
+reads).  Oracle: oracles/c14_caller.py (independent caller from the Bismark definition and the property text).
 """
 import atexit
 import os
@@ -21,26 +26,45 @@ from oracles import c14_caller as O
 ID = 'C14'
 DESIGN_REF = 'DESIGN.md section 3, C14'
 RULE = ('full product: every window (start, length 1..Lmax) of every contig of the reference (de-Bruijn word of order 3 '
-        'over ACGTN + contig-end contigs + soft-masked contig) x every subset of the C/G positions of the window '
+        'over ACGTN + contig-end contigs + contigs shorter than a context + soft-masked contig + mixed-case contigs + '
+        'IUPAC R/Y contig) x every subset of the C/G positions of the window '
         'converted (for shape full additionally every single C/G position substituted by the non-conversion base / N) x '
         'strand x taps_strand x fragment shape (single R1 safe/unsafe, fully overlapping pair, split pair, pair with an uncovered gap, dove-tailed '
-        'pair by 1 [thorough: by 2, pair with 1I in R1 and 1D in R2]) x class (TAPSNlaIIIMolecule with soft-clipped CATG, '
-        'TAPSCHICMolecule); one real __finalise__ per case; non-trivial = the window holds a C or G; states = distinct cases')
+        'pair by 1 [thorough: by 2], outward-facing pair without any safe span, improper pair with both mates on one strand (not for the CHIC classes, whose fragment class rejects it), pair with 1I in R1 and 1D in R2, pair whose R1 '
+        'is spliced (1N), pair with soft clips at both 3\' ends and the 5\' end of R2, single read with 1D(+1I); the last six '
+        'on windows <= thin_window) x class (TAPSNlaIIIMolecule with soft-clipped CATG, TAPSCHICMolecule); '
+        'family var: the same product on windows <= var_window for TAPSMolecule, AnnotatedTAPSNlaIIIMolecule, '
+        'AnnotatedTAPSCHICMolecule, TAPSPTaggedMolecule, with pairs also under allow_unsafe_base_calls=True (for the two '
+        'first classes only those); family vote: on windows of vote_window lengths, for every C/G position and both '
+        'readings of it: R2 shows the opposite / another base / N x mate qualities R1>R2, R1<R2, equal; min_phred_score '
+        'keeping both mates (equal to the lower quality) / R1 only / nothing; 1..3 further fragments showing the same / '
+        'opposite / third base / N there (even splits, majorities, three-way ties); family retag: after __finalise__ '
+        'set_methylation_call_tags(call_dict, nine custom tag names, reads = all / the R1s / the R2s) on molecules of 1 '
+        'and 2 fragments; one real __finalise__ per case; non-trivial = the window holds a C or G; states = distinct cases')
 ASSUMPTIONS = [
     'reads carry a correct MD tag (the reference base is taken from it) and are in BAM orientation',
-    'both mates show the same molecule sequence (mate disagreement / voting between fragments is C13)',
+    'outside the vote family both mates and all fragments show the same molecule sequence; inside it the consensus is '
+    'the one the package defines (property C13): one call per fragment (higher-quality mate; equal-quality mates which '
+    'disagree, or N, are no call), the base called by strictly more fragments than any other, ties absent; '
+    'min_phred_score removes bases below it (tapsTabulator -min_phred_score help text)',
     'the never-outside-the-safe-span clause is evaluated for allow_unsafe_base_calls=False (the default); '
-    'allow_unsafe_base_calls=True is only generated for single-end fragments, where every read base may be called',
+    'with allow_unsafe_base_calls=True every read base may be called (single-end fragments: must be; pairs: must be '
+    'inside the safe span, may be outside)',
     'a call is REQUIRED only where every reading of the statement yields one: position inside the safe span of a pair '
     '(or anywhere on the read with allow_unsafe_base_calls=True), on the expected reference base, complete ACGT '
     'three-base context, consensus base equal to the reference or to the conversion; CpG with an unknown third base '
     'may be called z or left out; a single-end fragment in safe mode may be called or left out',
     'a consensus base which is neither reference nor conversion may give no call or a lower-case call, never upper case',
+    'for an improper pair with both mates on one strand the safe span is undefined: nothing is demanded and nothing is '
+    'forbidden by the span clause; the calls which are made, XM and the totals are judged as everywhere else',
     'taps_strand F: forward molecules (R1 forward) are called on reference C, reverse molecules on G; R: the opposite',
+    'retag family: the reads handed to set_methylation_call_tags carry the nine custom tags with the values the '
+    'statement gives XM / the totals; reads outside the subset do not get them (docstring: "reads to write the tags to")',
 ]
 
 TAGS = ('MC', 'uC', 'sZ', 'sz', 'sX', 'sx', 'sH', 'sh')
-_STATE = {'dir': None, 'path': None, 'owner': None, 'fasta': None, 'fasta_pid': None, 'taps': None, 'hdr': None}
+_STATE = {'dir': None, 'path': None, 'owner': None, 'fasta': None, 'fasta_pid': None, 'taps': None, 'hdr': None,
+          'features': None}
 _CONTIGS = dict(G.contigs())
 
 
@@ -78,19 +102,50 @@ def _env():
         from singlecellmultiomics.molecule import TAPS
         _STATE['taps'] = TAPS()
         _STATE['hdr'] = G.make_header()
+        from singlecellmultiomics.features import FeatureContainer
+        _STATE['features'] = FeatureContainer()          # empty annotation: the Annotated* classes demand one
     return _STATE['fasta'], _STATE['taps'], _STATE['hdr']
 
 
 # ------------------------------------------------------------------------------------------------ space
+OLD_CLASSES = ('chic', 'nla')
+NEW_CLASSES = ('plain', 'nla_annot', 'chic_annot', 'nla_ptag')
+CLASS_NAMES = {'nla': 'TAPSNlaIIIMolecule', 'chic': 'TAPSCHICMolecule', 'plain': 'TAPSMolecule',
+               'nla_annot': 'AnnotatedTAPSNlaIIIMolecule', 'chic_annot': 'AnnotatedTAPSCHICMolecule',
+               'nla_ptag': 'TAPSPTaggedMolecule'}
+RETAG_MODES = ('all', 'R1', 'R2')
+RETAG_SHAPES = ('full', 'split', 'single')
+CUSTOM_TAGS = {'bismark_call_tag': 'yM', 'total_methylated_tag': 'yC', 'total_unmethylated_tag': 'yU',
+               'total_methylated_CPG_tag': 'yA', 'total_unmethylated_CPG_tag': 'yB',
+               'total_methylated_CHG_tag': 'yD', 'total_unmethylated_CHG_tag': 'yE',
+               'total_methylated_CHH_tag': 'yF', 'total_unmethylated_CHH_tag': 'yG'}
+# custom tag -> the default tag whose value the statement defines
+CUSTOM_TOTALS = {'yC': 'MC', 'yU': 'uC', 'yA': 'sZ', 'yB': 'sz', 'yD': 'sX', 'yE': 'sx', 'yF': 'sH', 'yG': 'sh'}
+
+
 def bounds(tier):
     b = {'contigs': {n: len(s) for n, s in _CONTIGS.items()},
-         'classes': ['nla', 'chic'], 'strands': ['+', '-'], 'taps_strand': ['F', 'R'],
+         'classes': {'full product': [CLASS_NAMES[c] for c in OLD_CLASSES],
+                     'var family': [CLASS_NAMES[c] for c in NEW_CLASSES]},
+         'strands': ['+', '-'], 'taps_strand': ['F', 'R'],
          'conversion_patterns': 'every subset of the C/G positions of the window',
-         'substitutions': 'shape full: every single C/G position as non-conversion base and as N'}
+         'substitutions': 'shape full: every single C/G position as non-conversion base and as N',
+         'vote_family': {'contigs': list(PLAIN_CONTIGS), 'shapes': list(G.VOTE_SHAPES), 'mate_qualities_R1_R2': [list(q) for q in G.MATE_QUALS],
+                         'R2_shows': ['opposite', 'non-conversion substitution', 'N'],
+                         'min_phred_score': list(G.MIN_PHREDS),
+                         'further_fragments_show': [list(p) for p in G.COPY_PATTERNS]},
+         'retag_family': {'contigs': list(PLAIN_CONTIGS), 'modes': list(RETAG_MODES), 'shapes': list(RETAG_SHAPES),
+                          'fragments': {CLASS_NAMES['plain']: 1, CLASS_NAMES['chic']: 2},
+                          'custom_tags': CUSTOM_TAGS, 'classes': [CLASS_NAMES['plain'], CLASS_NAMES['chic']]}}
     if tier == 'quick':
-        b.update({'max_window': 6, 'shapes': list(G.SHAPES_QUICK), 'single_unsafe': [False, True]})
+        b.update({'max_window': 6, 'shapes': list(G.SHAPES_QUICK), 'single_unsafe': [False, True],
+                  'thin_shapes': list(G.SHAPES_THIN), 'thin_window': 4, 'var_window': 2, 'var_pairs_unsafe': [False, True],
+                  'vote_windows': [3], 'vote_classes': [CLASS_NAMES['chic']], 'retag_window': 2})
     else:
-        b.update({'max_window': 8, 'shapes': list(G.SHAPES_THOROUGH), 'single_unsafe': [False, True]})
+        b.update({'max_window': 8, 'shapes': list(G.SHAPES_THOROUGH), 'single_unsafe': [False, True],
+                  'thin_shapes': list(G.SHAPES_THIN), 'thin_window': 8, 'var_window': 4, 'var_pairs_unsafe': [False, True],
+                  'vote_windows': [2, 3, 4], 'vote_classes': [CLASS_NAMES['chic'], CLASS_NAMES['nla']],
+                  'retag_window': 3})
     return b
 
 
@@ -99,19 +154,52 @@ NSPLIT = 4
 
 def shards(tier):
     out = []
-    for cls in ('chic', 'nla'):
+    for cls in OLD_CLASSES:
         for taps_strand in ('F', 'R'):
             for strand in ('+', '-'):
                 for k in range(NSPLIT):
                     out.append((cls, taps_strand, strand, k))
                 out.append((cls, taps_strand, strand, 'long'))
+    for cls in NEW_CLASSES + OLD_CLASSES:
+        for taps_strand in ('F', 'R'):
+            for strand in ('+', '-'):
+                out.append((cls, taps_strand, strand, 'var'))
+    for cls in (OLD_CLASSES[:1] if tier == 'quick' else OLD_CLASSES):
+        for taps_strand in ('F', 'R'):
+            for strand in ('+', '-'):
+                for k in range(NSPLIT):
+                    out.append((cls, taps_strand, strand, f'vote{k}'))
+    for cls in ('plain', 'chic'):
+        for taps_strand in ('F', 'R'):
+            for strand in ('+', '-'):
+                out.append((cls, taps_strand, strand, 'retag'))
     return out
+
+
+def _shapes_for(b, L, cls):
+    # CHICFragment declares a same-strand pair invalid (the tagger never builds a molecule from it)
+    return [sh for sh in b['shapes'] if (sh not in b['thin_shapes'] or L <= b['thin_window'])
+            and not (sh in G.UNORIENTED_SHAPES and cls in ('chic', 'chic_annot'))]
+
+
+# the vote and retag families do not depend on the letter case / ambiguity letters of the reference
+PLAIN_CONTIGS = tuple(n for n in _CONTIGS if n not in (G.LONG, 'lc', 'mx0', 'mx1', 'iu'))
+
+
+def _windows(L, k=None, contigs=None):
+    for contig, seq in _CONTIGS.items():
+        if contig == G.LONG or (contigs is not None and contig not in contigs):
+            continue
+        for start in range(0, len(seq) - L + 1):
+            if k is not None and start % NSPLIT != k:
+                continue
+            yield contig, seq, start
 
 
 def _cases(shard, tier):
     cls, taps_strand, strand, k = shard
     b = bounds(tier)
-    shapes = b['shapes']
+    fixed = {'cls': cls, 'strand': strand, 'taps_strand': taps_strand}
     if k == 'long':
         # molecules tiled in coordinate order over the long contig through ONE TAPS handler and ONE FastaFile, the way the
         # tagger processes a contig: state kept between molecules (reference windows, memoised contexts) is exercised
@@ -124,19 +212,48 @@ def _cases(shard, tier):
                 nconv = len(G.convertible_offsets(seq[start:start + L]))
                 if len(c['conv']) not in (0, nconv):
                     continue
-                c.update({'cls': cls, 'strand': strand, 'taps_strand': taps_strand})
+                c.update(fixed)
                 yield c
         return
-    for L in range(1, b['max_window'] + 1):
-        for contig, seq in _CONTIGS.items():
-            if contig == G.LONG:
-                continue
-            for start in range(0, len(seq) - L + 1):
-                if start % NSPLIT != k:
-                    continue
-                for c in G.window_cases(contig, seq, start, L, shapes):
-                    c.update({'cls': cls, 'strand': strand, 'taps_strand': taps_strand})
+    if k == 'var':
+        # the other molecule classes (and pairs under allow_unsafe_base_calls=True) on the short windows
+        for L in range(1, b['var_window'] + 1):
+            for contig, seq, start in _windows(L):
+                for c in G.window_cases(contig, seq, start, L, _shapes_for(b, L, cls), unsafe_pairs=True):
+                    if cls in OLD_CLASSES and not (c['unsafe'] and c['shape'] not in G.SINGLE_SHAPES):
+                        continue            # everything else of these two classes is in the full product
+                    c.update(fixed, fam='var')
                     yield c
+        return
+    if isinstance(k, str) and k.startswith('vote'):
+        for L in b['vote_windows']:
+            for contig, seq, start in _windows(L, int(k[4:]), PLAIN_CONTIGS):
+                for c in G.vote_cases(contig, seq, start, L):
+                    c.update(fixed, fam='vote')
+                    yield c
+        return
+    if k == 'retag':
+        for L in range(1, b['retag_window'] + 1):
+            for contig, seq, start in _windows(L, None, PLAIN_CONTIGS):
+                for c in G.window_cases(contig, seq, start, L, RETAG_SHAPES, unsafe_single=True):
+                    if c['sub'] is not None or (c['shape'] in G.SINGLE_SHAPES and not c['unsafe']):
+                        continue
+                    # TAPSMolecule: molecules of one fragment; TAPSCHICMolecule: of two fragments
+                    for extra in ((None,) if cls == 'plain' else ([None],)):
+                        for mode in RETAG_MODES:
+                            if mode == 'R2' and c['shape'] in G.SINGLE_SHAPES:
+                                continue
+                            d = dict(c, retag=mode, fam='retag')
+                            if extra:
+                                d['extra'] = list(extra)
+                            d.update(fixed)
+                            yield d
+        return
+    for L in range(1, b['max_window'] + 1):
+        for contig, seq, start in _windows(L, k):
+            for c in G.window_cases(contig, seq, start, L, _shapes_for(b, L, cls)):
+                c.update(fixed)
+                yield c
 
 
 # ------------------------------------------------------------------------------------------------ one case
@@ -145,37 +262,77 @@ def _ref_class(refseq, p):
     return f'ref-{b}'
 
 
+def _classes():
+    from singlecellmultiomics import molecule as M
+    from singlecellmultiomics import fragment as F
+    return {'nla': (M.TAPSNlaIIIMolecule, F.NlaIIIFragment, False),
+            'chic': (M.TAPSCHICMolecule, F.CHICFragment, False),
+            'plain': (M.TAPSMolecule, F.Fragment, False),
+            'nla_annot': (M.AnnotatedTAPSNlaIIIMolecule, F.NlaIIIFragment, True),
+            'chic_annot': (M.AnnotatedTAPSCHICMolecule, F.CHICFragment, True),
+            'nla_ptag': (M.TAPSPTaggedMolecule, F.NlaIIIFragment, True)}
+
+
+def _observations(spec):
+    if spec is None:
+        return None
+    return {p: (b, spec['qual']) for p, b in zip(spec['positions'], spec['aligned'])}
+
+
 def run_case(case):
     """-> (violations [(signature, detail)], info dict)"""
-    from singlecellmultiomics.molecule import TAPSNlaIIIMolecule, TAPSCHICMolecule
-    from singlecellmultiomics.fragment import NlaIIIFragment, CHICFragment
     fasta, taps, hdr = _env()
     refseq = _CONTIGS[case['contig']]
-    reads, specs, molseq = G.build_reads(hdr, case, refseq)
-    s1, s2 = specs
-    for r, s in zip(reads, specs):
-        if s is not None and list(r.get_reference_positions()) != s['positions']:
-            raise HarnessError(f'read builder: aligned positions differ from the specification {case}')
+    frag_reads, frag_specs, molseq = G.build_reads(hdr, case, refseq)
+    s1, s2 = frag_specs[0]
+    for reads, specs in zip(frag_reads, frag_specs):
+        for r, s in zip(reads, specs):
+            if s is not None and list(r.get_reference_positions()) != s['positions']:
+                raise HarnessError(f'read builder: aligned positions differ from the specification {case}')
+            if s is not None:
+                # what pysam derives from CIGAR + MD must be the specified bases on the true reference bases
+                trip = r.get_aligned_pairs(matches_only=True, with_seq=True)
+                if [r.query_sequence[q] for q, _, _ in trip] != list(s['aligned']) or \
+                        [b.upper() for _, _, b in trip] != [refseq[p].upper() for p in s['positions']]:
+                    raise HarnessError(f'read builder: aligned / reference bases differ from the specification {case}')
 
     covered = set(s1['positions']) | (set(s2['positions']) if s2 else set())
-    observed = {case['start'] + o: molseq[o] for o in range(case['len']) if case['start'] + o in covered}
     span = lambda s: (s['positions'][0], s['positions'][-1] + 1)
+    minq = case.get('minq')
+    oriented = case['shape'] not in G.UNORIENTED_SHAPES
+    observed = O.molecule_consensus([(_observations(a), _observations(b), span(a), span(b) if b else None)
+                                     for a, b in frag_specs], case['strand'], case['unsafe'], minq, oriented)
+    if not (case.get('r2sub') or case.get('extra') or minq is not None):
+        # harness self test: without disagreement / filtering the consensus is what the molecule shows
+        for p, base in observed.items():
+            if base != molseq[p - case['start']]:
+                raise HarnessError(f'oracle consensus differs from the molecule sequence {case}')
+        plain = {case['start'] + o for o in range(case['len']) if molseq[o] in 'ACGT'} & covered
+        if (s2 is None or case['unsafe'] or not oriented) and set(observed) != plain:
+            raise HarnessError(f'oracle consensus incomplete {case}')
     expect = O.expectations(refseq, case['strand'], case['taps_strand'], case['unsafe'], span(s1),
-                            span(s2) if s2 else None, covered, observed)
+                            span(s2) if s2 else None, covered, observed, oriented)
 
     viols = []
     info = {'letters': '', 'ncalls': 0}
     try:
-        if case['cls'] == 'nla':
-            frag = NlaIIIFragment(reads)
-            mol = TAPSNlaIIIMolecule(frag, reference=fasta, taps=taps, taps_strand=case['taps_strand'],
-                                     allow_unsafe_base_calls=case['unsafe'])
-        else:
-            frag = CHICFragment(reads)
-            mol = TAPSCHICMolecule(frag, reference=fasta, taps=taps, taps_strand=case['taps_strand'],
-                                   allow_unsafe_base_calls=case['unsafe'])
-        if not frag.is_valid():
-            raise HarnessError(f'generated fragment is not valid: {case}')
+        mcls, fcls, annotated = _classes()[case['cls']]
+        frags = [fcls(reads) for reads in frag_reads]
+        kw = {'reference': fasta, 'taps': taps, 'taps_strand': case['taps_strand'],
+              'allow_unsafe_base_calls': case['unsafe']}
+        if annotated:
+            kw['features'] = _STATE['features']
+        if minq is not None:
+            kw['methylation_consensus_kwargs'] = {'min_phred_score': minq}
+        mol = mcls(frags[0], **kw)
+        for f in frags[1:]:
+            if not mol.add_fragment(f):
+                raise HarnessError(f'a copy of the fragment was refused by the molecule: {case}')
+        for frag in frags:
+            if not frag.is_valid():
+                raise HarnessError(f'generated fragment is not valid: {case}')
+        if len(mol) != len(frags):
+            raise HarnessError(f'molecule holds {len(mol)} fragments, {len(frags)} were added: {case}')
         if bool(mol.strand) != (case['strand'] == '-'):
             raise HarnessError(f'molecule strand differs from the strand of R1: {case}')
         mol.__finalise__()
@@ -205,51 +362,99 @@ def run_case(case):
     for clause, p, detail in O.judge(expect, calls):
         viols.append((f'{clause}:calls:{_ref_class(refseq, p)}', {'pos': p, 'detail': detail, 'calls': _fmt(calls)}))
 
-    # ---- clause 2: per-read call strings
+    # ---- clause 2: per-read call strings (every read of every fragment)
     want_tags = O.tally(calls)
-    for i, (r, s) in enumerate(zip(reads, specs)):
-        if r is None:
-            continue
-        rn = f'R{i + 1}'
-        if not r.has_tag('XM'):
-            viols.append((f'XM-missing:{rn}', None))
-        else:
-            xm = r.get_tag('XM')
-            if not isinstance(xm, str) or len(xm) != len(s['positions']):
-                viols.append((f'XM-length-differs-from-aligned-bases:{rn}',
-                              {'XM': xm, 'aligned_bases': len(s['positions']), 'cigar': s['cigar']}))
+    for fi, (reads, specs) in enumerate(zip(frag_reads, frag_specs)):
+        for i, (r, s) in enumerate(zip(reads, specs)):
+            if r is None:
+                continue
+            rn = f'R{i + 1}'
+            if not r.has_tag('XM'):
+                viols.append((f'XM-missing:{rn}', {'fragment': fi}))
             else:
-                bad = sorted(set(xm) - set(O.CALL_LETTERS + '.'))
-                if bad:
-                    viols.append((f'XM-illegal-character:{rn}', {'XM': xm, 'chars': bad}))
-                rcalls = {p: c for p, c in zip(s['positions'], xm) if c in O.CALL_LETTERS}
-                for clause, p, detail in O.judge(expect, rcalls, positions=set(s['positions'])):
-                    viols.append((f'{clause}:XM:{_ref_class(refseq, p)}',
-                                  {'read': rn, 'pos': p, 'detail': detail, 'XM': xm, 'first_pos': s['positions'][0]}))
-                mine = {p: c for p, c in calls.items() if p in set(s['positions'])}
-                if rcalls != mine:
-                    viols.append((f'XM-differs-from-molecule-calls:{rn}',
-                                  {'XM': xm, 'first_pos': s['positions'][0], 'calls': _fmt(calls)}))
-        # ---- clause 3: totals
-        for t in TAGS:
-            if not r.has_tag(t):
-                viols.append((f'total-tag-missing:{t}', {'read': rn}))
-            elif r.get_tag(t) != want_tags[t]:
-                viols.append((f'total-tag-differs-from-number-of-calls:{t}',
-                              {'read': rn, 'tag': r.get_tag(t), 'calls': _fmt(calls), 'want': want_tags[t]}))
+                xm = r.get_tag('XM')
+                viols.extend(_judge_call_string(xm, s, rn, fi, expect, calls, refseq, 'XM'))
+            # ---- clause 3: totals
+            for t in TAGS:
+                if not r.has_tag(t):
+                    viols.append((f'total-tag-missing:{t}', {'read': rn, 'fragment': fi}))
+                elif r.get_tag(t) != want_tags[t]:
+                    viols.append((f'total-tag-differs-from-number-of-calls:{t}',
+                                  {'read': rn, 'fragment': fi, 'tag': r.get_tag(t), 'calls': _fmt(calls),
+                                   'want': want_tags[t]}))
+
+    # ---- retag family: the same tags under custom names on a subset of the reads
+    if case.get('retag'):
+        viols.extend(_retag(mol, cd, case['retag'], frag_reads, frag_specs, expect, calls, refseq, want_tags))
 
     info['letters'] = ''.join(sorted(set(calls.values())))
     info['ncalls'] = len(calls)
     info['nabsent'] = sum(1 for p, e in expect.items() if e[0] == 'absent' and refseq[p].upper() in 'CG')
     info['nrequired'] = sum(1 for e in expect.values() if e[0] == 'call' and e[2])
+    info['no_consensus'] = sum(1 for p, e in expect.items() if e == ('absent', 'call-without-consensus-base'))
     seen = set()
     dedup = []
     for sig, d in viols:
         if sig not in seen:
             seen.add(sig)
             dedup.append((sig, {'detail': d, 'R1': _rd(s1), 'R2': _rd(s2), 'molecule_shows': molseq,
+                                'fragments': len(frag_reads),
                                 'reference_window': refseq[case['start']:case['start'] + case['len']]}))
     return dedup, info
+
+
+def _judge_call_string(xm, s, rn, fi, expect, calls, refseq, what):
+    out = []
+    if not isinstance(xm, str) or len(xm) != len(s['positions']):
+        out.append((f'{what}-length-differs-from-aligned-bases:{rn}',
+                    {'fragment': fi, what: xm, 'aligned_bases': len(s['positions']), 'cigar': s['cigar']}))
+        return out
+    bad = sorted(set(xm) - set(O.CALL_LETTERS + '.'))
+    if bad:
+        out.append((f'{what}-illegal-character:{rn}', {'fragment': fi, what: xm, 'chars': bad}))
+    rcalls = {p: c for p, c in zip(s['positions'], xm) if c in O.CALL_LETTERS}
+    for clause, p, detail in O.judge(expect, rcalls, positions=set(s['positions'])):
+        out.append((f'{clause}:{what}:{_ref_class(refseq, p)}',
+                    {'read': rn, 'fragment': fi, 'pos': p, 'detail': detail, what: xm, 'first_pos': s['positions'][0]}))
+    mine = {p: c for p, c in calls.items() if p in set(s['positions'])}
+    if rcalls != mine:
+        out.append((f'{what}-differs-from-molecule-calls:{rn}',
+                    {'fragment': fi, what: xm, 'first_pos': s['positions'][0], 'calls': _fmt(calls)}))
+    return out
+
+
+def _retag(mol, cd, mode, frag_reads, frag_specs, expect, calls, refseq, want_tags):
+    """set_methylation_call_tags(call_dict, <nine custom tag names>, reads=subset) after __finalise__"""
+    out = []
+    pick = {'all': (0, 1), 'R1': (0,), 'R2': (1,)}[mode]
+    subset = [reads[i] for reads in frag_reads for i in pick if reads[i] is not None]
+    try:
+        mol.set_methylation_call_tags(cd, reads=(None if mode == 'all' else subset), **CUSTOM_TAGS)
+    except Exception as ex:
+        return [(f'retag:exception:{type(ex).__name__}', repr(ex))]
+    for fi, (reads, specs) in enumerate(zip(frag_reads, frag_specs)):
+        for i, (r, s) in enumerate(zip(reads, specs)):
+            if r is None:
+                continue
+            rn = f'R{i + 1}'
+            if i not in pick:
+                got = [t for t in CUSTOM_TAGS.values() if r.has_tag(t)]
+                if got:
+                    out.append((f'retag:tags-written-to-a-read-outside-the-subset:{rn}', {'fragment': fi, 'tags': got}))
+                continue
+            if not r.has_tag('yM'):
+                out.append((f'retag:call-string-tag-missing:{rn}', {'fragment': fi}))
+            else:
+                out.extend(('retag:' + sig, d) for sig, d in
+                           _judge_call_string(r.get_tag('yM'), s, rn, fi, expect, calls, refseq, 'XM'))
+            for t, std in CUSTOM_TOTALS.items():
+                if not r.has_tag(t):
+                    out.append((f'retag:total-tag-missing:{std}', {'read': rn, 'fragment': fi, 'custom': t}))
+                elif r.get_tag(t) != want_tags[std]:
+                    out.append((f'retag:total-tag-differs-from-number-of-calls:{std}',
+                                {'read': rn, 'fragment': fi, 'custom': t, 'tag': r.get_tag(t),
+                                 'want': want_tags[std], 'calls': _fmt(calls)}))
+    return out
 
 
 def _fmt(calls):
@@ -263,17 +468,37 @@ def _rd(s):
 
 
 # ------------------------------------------------------------------------------------------------ engine interface
+def _label(case, info):
+    fam = case.get('fam')
+    head = f"{case['shape']}{'-unsafe' if case['unsafe'] else ''}"
+    if fam == 'var':
+        head = f"var:{case['cls']}:{head}"
+    elif fam == 'vote':
+        if case.get('r2sub'):
+            q1, q2 = case['quals']
+            kind = f"mate-{'N' if case['r2sub'][1] == 'N' else 'base'}-q{'>' if q1 > q2 else '<' if q1 < q2 else '='}"
+        elif case.get('minq') is not None:
+            kind = f"minq{case['minq']}"
+        else:
+            kind = f"copies{len(case['extra'])}"
+        head = f"vote:{kind}:{head}:noconsensus={info.get('no_consensus', 0)}"
+    elif fam == 'retag':
+        head = f"retag-{case['retag']}:{case['cls']}:frags={1 + len(case.get('extra') or [])}:{head}"
+    return f"{head}:calls={info.get('letters') or '-'}"
+
+
 def run_shard(shard, tier, acc):
     for case in _cases(shard, tier):
         viols, info = run_case(case)
         refwin = _CONTIGS[case['contig']][case['start']:case['start'] + case['len']]
         nontrivial = any(b in 'CGcg' for b in refwin)
-        acc.case(case, transitions=1 + info.get('ncalls', 0), execs=1, nontrivial=nontrivial,
-                 outcome=f"{case['shape']}{'-unsafe' if case['unsafe'] else ''}:calls={info.get('letters') or '-'}")
+        acc.case(case, transitions=1 + info.get('ncalls', 0), execs=1, nontrivial=nontrivial, outcome=_label(case, info))
         acc.count('calls_checked', info.get('ncalls', 0))
         acc.count('convertible_positions_that_must_stay_uncalled', info.get('nabsent', 0))
+        acc.count('positions_without_consensus_that_must_stay_uncalled', info.get('no_consensus', 0))
         acc.count('calls_required_by_the_oracle', info.get('nrequired', 0))
         acc.count('cases_with_a_required_call', 1 if info.get('nrequired', 0) else 0)
+        acc.count(f"cases_family_{case.get('fam', 'product')}", 1)
         for sig, d in viols:
             acc.violation(sig, case, d)
 
